@@ -450,13 +450,7 @@ class VM:
             elements = []
             for _ in range(arg):
                 elements.insert(0, self.stack.pop())
-            arr = JSArray()
-            arr._elements = elements
-            # Set prototype from Array constructor
-            array_constructor = self.globals.get("Array")
-            if array_constructor and hasattr(array_constructor, "_prototype"):
-                arr._prototype = array_constructor._prototype
-            self.stack.append(arr)
+            self.stack.append(self._new_array(elements))
 
         elif op == OpCode.BUILD_OBJECT:
             obj = JSObject()
@@ -1367,6 +1361,18 @@ class VM:
 
         return UNDEFINED
 
+    def _new_array(self, elements: List[JSValue]) -> JSArray:
+        """An array of this context: it inherits from Array.prototype, whether
+        an array literal or a built-in function makes it."""
+        arr = JSArray()
+        arr._elements = elements
+        arr._prototype = self._array_prototype()
+        return arr
+
+    def _array_prototype(self) -> Optional[JSObject]:
+        """Array.prototype of this context."""
+        return getattr(self.globals.get("Array"), "_prototype", None)
+
     def _object_prototype(self) -> Optional[JSObject]:
         """Object.prototype of this context."""
         object_constructor = self.globals.get("Object")
@@ -1526,7 +1532,7 @@ class VM:
             callback = args[0] if args else None
             this_arg = args[1] if len(args) > 1 else UNDEFINED
             require_callable(callback, "map callback")
-            result = JSArray(len(arr._elements))
+            result = vm._new_array([UNDEFINED] * len(arr._elements))
             for i, elem, val in visit(callback, this_arg):
                 result._elements[i] = val
             return result
@@ -1535,8 +1541,7 @@ class VM:
             callback = args[0] if args else None
             this_arg = args[1] if len(args) > 1 else UNDEFINED
             require_callable(callback, "filter callback")
-            result = JSArray()
-            result._elements = []
+            result = vm._new_array([])
             for i, elem, val in visit(callback, this_arg):
                 if to_boolean(val):
                     result._elements.append(elem)
@@ -1591,8 +1596,7 @@ class VM:
             delete_count = int(max(0, min(delete_count, length - start)))
 
             # Create result array with deleted elements
-            result = JSArray()
-            result._elements = arr._elements[start : start + delete_count]
+            result = vm._new_array(arr._elements[start : start + delete_count])
 
             # Modify original array
             arr._elements = (
@@ -1666,8 +1670,7 @@ class VM:
             return True
 
         def concat_fn(*args):
-            result = JSArray()
-            result._elements = arr._elements[:]
+            result = vm._new_array(arr._elements[:])
             for arg in args:
                 if isinstance(arg, JSArray):
                     result._elements.extend(arg._elements)
@@ -1679,9 +1682,7 @@ class VM:
             length = len(arr._elements)
             start = relative_index(args[0], length, 0) if args else 0
             end = relative_index(args[1], length, length) if len(args) > 1 else length
-            result = JSArray()
-            result._elements = arr._elements[start:end]
-            return result
+            return vm._new_array(arr._elements[start:end])
 
         def reverse_fn(*args):
             arr._elements.reverse()
@@ -1935,6 +1936,12 @@ class VM:
         regex._internal._poll_callback = callback
         return regex
 
+    def _match_array(self, result: JSValue) -> JSValue:
+        """The result of RegExp exec: null, or an array of this context."""
+        if isinstance(result, JSArray):
+            result._prototype = self._array_prototype()
+        return result
+
     def _make_regexp_method(self, re: JSRegExp, method: str) -> Any:
         """Create a bound RegExp method."""
         self._arm_regex(re)
@@ -1950,7 +1957,7 @@ class VM:
         def exec_fn(*args):
             string = to_string(args[0]) if args else "undefined"
             try:
-                return re.exec(string)
+                return self._match_array(re.exec(string))
             except RegexTimeoutError:
                 raise TimeLimitError("Regex execution timeout")
 
@@ -2269,9 +2276,7 @@ class VM:
 
             if limit >= 0:
                 parts = parts[:limit]
-            arr = JSArray()
-            arr._elements = parts
-            return arr
+            return self._new_array(parts)
 
         def expand(template, matched, index, captures=()):
             """GetSubstitution: $$ $& $` $' and, for the groups of a regex, $n / $nn."""
@@ -2479,7 +2484,7 @@ class VM:
             try:
                 if "g" not in regex._flags:
                     # Symbol.match of a non-global regex is exec
-                    return regex.exec(s)
+                    return self._match_array(regex.exec(s))
                 # Global: the text of every match, from the start; lastIndex
                 # is driven through RegExpBuiltinExec and ends at 0
                 regex.lastIndex = 0
@@ -2494,9 +2499,7 @@ class VM:
                         regex.lastIndex = regex.lastIndex + 1
                 if not matches:
                     return NULL
-                arr = JSArray()
-                arr._elements = matches
-                return arr
+                return self._new_array(matches)
             except RegexTimeoutError:
                 raise TimeLimitError("Regex execution timeout")
 
